@@ -278,6 +278,26 @@ func RunStream(c *Ctx, cfg StreamCfg, handle func(w *Worker, sc StrCase, res *[s
 			})
 		}
 	}
+	// (a5) hash-collision pairs (collide.go): two distinct fully defined vectors of equal length and equal 32-bit hash,
+	// parsed back to back (A B A B ...): what a parse memo keyed on (hash, length) confuses
+	if cfg.Cover {
+		for vi, v := range spec.Versions {
+			vi, v := vi, v
+			pairs := FindCollisionPairs(c.Rand("collision-pairs", v.Name), v, c.Pick(1<<20, 1<<22), c.Pick(48, 512))
+			c.mu.Lock()
+			c.Counts["collision-pairs-v"+v.Name] += int64(len(pairs))
+			for _, p := range pairs {
+				c.Counts["collision-pairs:"+p.How]++
+			}
+			c.mu.Unlock()
+			c.Parallel("hash-collision-pairs-"+v.Name, len(pairs), 1, func(w *Worker, i int) {
+				for rep := 0; rep < 3; rep++ {
+					do(w, StrCase{pairs[i].A, vi, "hash-collision-pair:" + pairs[i].How})
+					do(w, StrCase{pairs[i].B, vi, "hash-collision-pair:" + pairs[i].How})
+				}
+			})
+		}
+	}
 	// (b) complete neighbourhoods of anchors
 	for vi, v := range spec.Versions {
 		anc := anchors(c.Rand("anchors", v.Name), v, cfg.Anchors)
